@@ -297,3 +297,69 @@ Theorem C08_translated_refusal_calls_nothing_full : forall w,
             GoLitePublishRefine.nil_result o = true.
 Proof. exact GoLitePublishRefine.translated_publish_refused. Qed.
 Print Assumptions C08_translated_refusal_calls_nothing_full.
+
+(* ================================================================================================================ *)
+(* One tick of a submission loop (Model/ThrottleTick.v)                                                             *)
+(* ================================================================================================================ *)
+(* Production is refused on the distance between the height and the two watermarks; the watermarks move in the
+   submission loops only.  What keeps the limit from being a deadlock is therefore what ONE TICK of
+   HeaderSubmissionLoop / DataSubmissionLoop does when it finds something pending.  The tick of the model
+   (Throttle.headers_iter / data_iter) is a function of the state and of the DA layer's answers and of nothing
+   else: not of config.Node.LazyMode, not of the limit, not of the number of pending items, not of whether the
+   pending blocks are empty, not of the size of any blob — the theorems below hold for all of them because the
+   tick cannot see them.  The harness drives the real HeaderSubmissionLoop / DataSubmissionLoop for one tick
+   (lazy and normal mode, limits 1..10, blobs from 1 KB to 1.9 MB) and compares requests and watermarks with this
+   tick on every run. *)
+From Verif Require Import Model.ThrottleTick Proofs.ThrottleTickProofs.
+
+(* After any interleaved history, whatever the DA layer answers: the DA requests of a tick form a chain over what
+   is pending — the first carries ALL pending items (headers: the heights above the header watermark; data: those
+   above the data watermark whose block has transactions), every later one carries all items the DA layer has not
+   taken yet; no request is empty, no request holds an item back. *)
+Theorem C08_tick_offers_everything_full : forall (c : cfg) (xhist : list xitem) (sc : list outcome), 1 <= c_init c ->
+  let s := xfinal c xhist in
+  chain (pending_headers s) (headers_calls s sc) /\ chain (pending_data s) (data_calls s sc).
+Proof. exact c08_tick_offers_everything. Qed.
+Print Assumptions C08_tick_offers_everything_full.
+
+Theorem C08_tick_requests_full : forall (c : cfg) (xhist : list xitem) (sc : list outcome), 1 <= c_init c ->
+  let s := xfinal c xhist in
+  Forall (fun call => call <> [] /\ exists k, call = skipn k (pending_headers s)) (headers_calls s sc) /\
+  Forall (fun call => call <> [] /\ exists k, call = skipn k (pending_data s)) (data_calls s sc).
+Proof. exact c08_tick_requests. Qed.
+Print Assumptions C08_tick_requests_full.
+
+(* Something pending and a DA layer that takes something => the watermark moves, in that very tick: after any
+   interleaved history, if a header (a block with transactions) is pending and the first answer of the DA layer
+   takes at least one blob, the header (data) watermark is strictly higher after the tick; if it takes all, the
+   header watermark is the chain height (every pending block with transactions is on the DA layer). *)
+Theorem C08_tick_progress_full : forall (c : cfg) (xhist : list xitem) (o : outcome) (sc : list outcome),
+  1 <= c_init c -> accepts_some o = true ->
+  let s := xfinal c xhist in
+  (pending_headers s <> [] ->
+     let s' := fst (headers_iter s (o :: sc)) in
+     t_wh s < t_wh s' /\ (o = OAcceptAll -> t_wh s' = t_height s)) /\
+  (pending_data s <> [] ->
+     let s' := fst (data_iter s (o :: sc)) in
+     t_wd s < t_wd s' /\ (o = OAcceptAll -> forall h, In h (pending_data s) -> In h (t_dad s'))).
+Proof. exact c08_tick_progress. Qed.
+Print Assumptions C08_tick_progress_full.
+
+(* non-vacuity: the idle chain below a small limit.  L = 3, three empty blocks: production is refused (3 headers
+   pending); ONE header tick against an accepting DA layer carries all three headers in its only request and
+   production goes on.  (A tick that waited for more headers here would wait for ever: no block can be produced.) *)
+Example idle_tick_submits_below_any_batch_size :
+  let c := mk_cfg 1 3 in
+  let s := xfinal c (map XI [IProduce false; IProduce false; IProduce false]) in
+  refused c s = true /\ pending_headers s = [1; 2; 3] /\ headers_calls s acc1 = [[1; 2; 3]] /\
+  refused c (fst (headers_iter s acc1)) = false.
+Proof. vm_compute. repeat split. Qed.
+
+(* requests after a partial acceptance: 4 blocks with transactions pending, the DA layer takes 1, fails, takes all *)
+Example tick_chain_example :
+  let c := mk_cfg 1 10 in
+  let s := xfinal c (map XI [IProduce false; IProduce true; IProduce true; IProduce true; IProduce true]) in
+  pending_data s = [2; 3; 4; 5] /\
+  data_calls s [OAccept 1; OFail; OAcceptAll] = [[2; 3; 4; 5]; [3; 4; 5]; [3; 4; 5]] /\
+  t_wd (fst (data_iter s [OAccept 1])) = 2.
+Proof. vm_compute. repeat split. Qed.
